@@ -179,20 +179,23 @@ fn cmp_pair(out: &mut String, x: &[u8], y: &[u8], rep: usize) {
     one!(out, first, "&[u8],BytesMut", &[u8], BytesMut, &xs, m2);
     eq_only!(out, first, "Bytes,BytesMut", Bytes, BytesMut, b, m2);
     eq_only!(out, first, "BytesMut,Bytes", BytesMut, Bytes, m, b2);
-    if let (Ok(sx), Ok(sy)) = (std::str::from_utf8(x), std::str::from_utf8(y)) {
-        let stx = sx.to_string();
+    // the str-typed operand must be valid UTF-8; the Bytes / BytesMut operand may hold anything
+    if let Ok(sy) = std::str::from_utf8(y) {
         let sty = sy.to_string();
         one!(out, first, "Bytes,str", Bytes, str, b, sy);
-        one!(out, first, "str,Bytes", str, Bytes, sx, b2);
         one!(out, first, "Bytes,String", Bytes, String, b, &sty);
-        one!(out, first, "String,Bytes", String, Bytes, &stx, b2);
         one!(out, first, "Bytes,&str", Bytes, &str, b, &sy);
-        one!(out, first, "&str,Bytes", &str, Bytes, &sx, b2);
         one!(out, first, "BytesMut,str", BytesMut, str, m, sy);
-        one!(out, first, "str,BytesMut", str, BytesMut, sx, m2);
         one!(out, first, "BytesMut,String", BytesMut, String, m, &sty);
-        one!(out, first, "String,BytesMut", String, BytesMut, &stx, m2);
         one!(out, first, "BytesMut,&str", BytesMut, &str, m, &sy);
+    }
+    if let Ok(sx) = std::str::from_utf8(x) {
+        let stx = sx.to_string();
+        one!(out, first, "str,Bytes", str, Bytes, sx, b2);
+        one!(out, first, "String,Bytes", String, Bytes, &stx, b2);
+        one!(out, first, "&str,Bytes", &str, Bytes, &sx, b2);
+        one!(out, first, "str,BytesMut", str, BytesMut, sx, m2);
+        one!(out, first, "String,BytesMut", String, BytesMut, &stx, m2);
         one!(out, first, "&str,BytesMut", &str, BytesMut, &sx, m2);
     }
     let _ = write!(out, "],\"ordb\":{},\"ordm\":{}", oc(Some(Ord::cmp(b, b2))), oc(Some(Ord::cmp(m, m2))));
@@ -348,6 +351,16 @@ fn main() {
                 fmt_case(&mut out, &d, k);
                 k += 1;
                 f.write_all(out.as_bytes()).unwrap();
+            }
+            // longer contents (formatters that work in blocks)
+            for &n in &[31usize, 32, 33, 40, 63, 64, 65, 97, 128, 129, 257] {
+                for _ in 0..(if big { 20 } else { 3 }) {
+                    let d: Vec<u8> = (0..n).map(|_| (rng.next() % 256) as u8).collect();
+                    out.clear();
+                    fmt_case(&mut out, &d, k);
+                    k += 1;
+                    f.write_all(out.as_bytes()).unwrap();
+                }
             }
             out.clear();
             fmt_case(&mut out, &[], k);
